@@ -31,6 +31,7 @@ structure Ghost where
   spare : List PS := []        -- copies of vertices cut off a leg
   pristine : Bool := true      -- legs and delayed list are those the pipeline run started with
   ok : Bool := true            -- every certificate check so far succeeded
+  verdict : Bool := false      -- a certified dependency verdict on the candidate was given (property C08)
   why : String := ""           -- label of the first check that failed (diagnostics only)
   deriving Repr, Inhabited
 
@@ -79,7 +80,8 @@ def gTake (v : PS) (g : Ghost) : Ghost :=
 
 /-- a dependency verdict on the candidate `x` whose certificate check gave `c` -/
 def gDepend (x : PS) (c : Bool) (g : Ghost) : Ghost :=
-  if isCand g x then { g.check c "dep-cert" with cand := none } else g.check false "dep-notcand"
+  if isCand g x then { g.check c "dep-cert" with cand := none, verdict := true }
+  else g.check false "dep-notcand"
 
 /-- `lit`: contraction of the candidate with an anticommuting vertex -/
 def litG (lighting vertex : PS) : GM PS :=
@@ -88,14 +90,19 @@ def litG (lighting vertex : PS) : GM PS :=
       (om lighting vertex && lighting.bits.length == vertex.bits.length) "lit-commuting"
     match r with
     | .ok l => { g with cand := some l }
-    | .error .dependent => { g with cand := none }
+    | .error .dependent => { g with cand := none, verdict := true }
     | .error _ => g)
+
+/-- the pool without the candidate -/
+def MG.rest (s : MG) : List PS := s.vertices ++ s.ghost.spare ++ s.mf.delayed
 
 /-- a move that only rearranges the pool: checked by comparing the members before and after -/
 def moveG {α} (x : MFM α) (upd : MG → Except Exc α → MF → Ghost) : GM α :=
   withGhost x (fun s r mf' =>
     let g := upd s r mf'
-    { g.check (sameMembers (MG.pool { mf := mf', ghost := g }) s.pool) "move" with pristine := false })
+    -- (while the candidate stays in hand the rest of the pool keeps its members as well: property C08)
+    { (g.check (sameMembers (MG.pool { mf := mf', ghost := g }) s.pool) "move").check
+        (g.cand.isNone || sameMembers (MG.rest { mf := mf', ghost := g }) s.rest) "move-rest" with pristine := false })
 
 def appendG (v lt : PS) : GM Unit :=
   moveG (append v lt) (fun s r _ => match r with | .ok _ => gTake v s.ghost | .error _ => s.ghost)
@@ -148,9 +155,11 @@ def replaceG (v vNew : PS) : GM Unit :=
     let s' : MG := { mf := mf', ghost := s.ghost }
     match r with
     | .ok _ =>
-      { s.ghost.check (replaceOk s.vertices s'.vertices v vNew && sameMembers (rest s') (rest s)) "replace"
+      { s.ghost.check (replaceOk s.vertices s'.vertices v vNew && sameMembers (rest s') (rest s)
+            && sameMembers (s.ghost.spare ++ mf'.delayed) (s.ghost.spare ++ s.mf.delayed)) "replace"
           with pristine := false }
-    | .error _ => { s.ghost.check (sameMembers s'.pool s.pool) "replace-err" with pristine := false })
+    | .error _ =>
+      { s.ghost.check (sameMembers s'.pool s.pool && sameMembers s'.rest s.rest) "replace-err" with pristine := false })
 
 /-- `a·b·d` arises from `a, b, d` by two commutators, or the three commute and share an
 anticommuting member of `vs` -/
@@ -235,7 +244,8 @@ def uncertifiedG : GM Unit := modifyThe MG (fun s => { s with ghost := s.ghost.c
 
 /-- the candidate is taken in hand -/
 def startG (lighting : PS) : GM Unit :=
-  modifyThe MG (fun s => { s with ghost := { s.ghost with cand := some lighting, spare := [], pristine := true } })
+  modifyThe MG (fun s => { s with ghost :=
+    { s.ghost with cand := some lighting, spare := [], pristine := true, verdict := false } })
 
 /-! ### the steps: the text of `Model/Morph.lean` with the guarded primitives -/
 
@@ -621,6 +631,117 @@ def buildG (gens : List PS) : Except Err BuildResultG := do
   | some queue =>
     let st : MG := { ghost := ({} : Ghost).check (sameMembers queue gens) "queue" }
     return buildLoopG ((queue.length + 2) * (queue.length + 2) * (queue.length + 2) + 64) st queue [] []
+
+/-! ### membership queries (property C08): a candidate against stored canonical legs -/
+
+/-- the guarded run of `MorphFactory.is_eq` (`check = false`) / `select_dependents` (`check = true`)
+on one candidate: fresh factory holding the stored legs -/
+def memberRunG (legs : List (List PS)) (check : Bool) (x : PS) : Except Exc Unit × MG :=
+  runPipelineG { mf := { legs := legs, isCheck := check }, ghost := {} } x
+
+/-- the guard condition of a membership query: every certificate check of the run succeeded, and a
+`DependentException` was raised at a certified verdict (`C08.C08_dependent_sound`: then the candidate
+is generated by the stored vertices) -/
+def memberGuard (legs : List (List PS)) (check : Bool) (x : PS) : Bool :=
+  let r := memberRunG legs check x
+  r.2.ghost.ok && (match r.1 with
+    | .error .dependent => r.2.ghost.verdict
+    | .ok _ => false
+    | .error _ => true)
+
+def memberWhy (legs : List (List PS)) (check : Bool) (x : PS) : String :=
+  let r := memberRunG legs check x
+  if !r.2.ghost.ok then r.2.ghost.why
+  else match r.1 with
+    | .error .dependent => if r.2.ghost.verdict then "" else "dependent-without-verdict"
+    | .ok _ => "pipeline-returned"
+    | .error _ => ""
+
+/-! certificate of NON-membership: a string `w` that commutes with every vertex and anticommutes with
+`x` (then `x` is not even in the F2-span of the vertices).  The search is plain Gaussian elimination;
+its answer is checked by `separates`. -/
+
+def swapPairs : List Bool → List Bool
+  | a :: b :: t => b :: a :: swapPairs t
+  | l => l
+
+def reduceRows (basis : List (Nat × List Bool)) (r : List Bool) : List Bool :=
+  basis.foldl (fun r (pb : Nat × List Bool) => if r.getD pb.1 false then xorB r pb.2 else r) r
+
+def rrefInsert (basis : List (Nat × List Bool)) (r : List Bool) : List (Nat × List Bool) :=
+  let r' := reduceRows basis r
+  match leadIdx r' with
+  | none => basis
+  | some p => basis.map (fun (pb : Nat × List Bool) => (pb.1, if pb.2.getD p false then xorB pb.2 r' else pb.2)) ++ [(p, r')]
+
+def separator (vs : List PS) (x : PS) : Option PS :=
+  let basis := vs.foldl (fun bs v => rrefInsert bs v.bits) []
+  let x' := reduceRows basis x.bits
+  match leadIdx x' with
+  | none => none
+  | some j =>
+    let f := (List.range x.bits.length).map (fun k =>
+      if k == j then true
+      else match basis.find? (fun (pb : Nat × List Bool) => pb.1 == k) with
+        | some pb => pb.2.getD j false
+        | none => false)
+    some (PS.ofBits (swapPairs f))
+
+/-- `w` commutes with every member of `vs`, anticommutes with `x`, all of one length -/
+def separates (vs : List PS) (x w : PS) : Bool :=
+  vs.all (fun v => !(om w v) && v.bits.length == x.bits.length) && om w x
+    && w.bits.length == x.bits.length && x.bits.length % 2 == 0
+
+def sepCert (vs : List PS) (x : PS) : Bool :=
+  match separator vs x with
+  | some w => separates vs x w
+  | none => false
+
+/-- the identity string is never generated by non-identity strings -/
+def zeroCert (vs : List PS) (x : PS) : Bool :=
+  x.bits.all (fun b => !b) && x.bits.length % 2 == 0
+    && vs.all (fun v => v.bits.any (fun b => b) && v.bits.length == x.bits.length)
+
+/-! third certificate, for strings INSIDE the F2-span: if the vertices are linearly independent
+(certified by a dual family `ws`, `ω(w_i, v_j) = δ_ij`) the quadratic form `q` with `q(v_i) = 1` and polar
+form `ω` is well defined on the span, every element of the commutator closure has `q = 1`
+(`C08.clo_mask`), so a string whose coordinates `c_i = ω(w_i, x)` give `q(c) = 0` is not generated. -/
+
+/-- xor of the members selected by the mask; `z` is the zero vector -/
+def comb (z : List Bool) : List Bool → List PS → List Bool
+  | c :: cs, v :: vs => if c then xorB v.bits (comb z cs vs) else comb z cs vs
+  | _, _ => z
+
+/-- `q(Σ c_i v_i) = Σ c_i + Σ_{i<j} c_i c_j ω(v_i, v_j)` on masks -/
+def qform (z : List Bool) : List Bool → List PS → Bool
+  | c :: cs, v :: vs => (qform z cs vs) != (c && !(Closure.omega v.bits (comb z cs vs)))
+  | _, _ => false
+
+/-- `ws` is dual to `vs`: `ω(w_i, v_j) = δ_ij` -/
+def dualOk : List PS → List PS → Bool
+  | [], [] => true
+  | w :: ws, v :: vs =>
+    Closure.omega w.bits v.bits && vs.all (fun v' => !(Closure.omega w.bits v'.bits))
+      && ws.all (fun w' => !(Closure.omega w'.bits v.bits)) && dualOk ws vs
+  | _, _ => false
+
+def qCheck (ws vs : List PS) (x : PS) : Bool :=
+  dualOk ws vs && x.bits.length % 2 == 0 && vs.all (fun v => v.bits.length == x.bits.length)
+    && !(qform (List.replicate x.bits.length false) (ws.map (fun w => Closure.omega w.bits x.bits)) vs)
+
+/-- search for the dual family (Gaussian elimination on the strings extended by unit tags; the answer
+is checked by `dualOk`) -/
+def findDuals (vs : List PS) (len : Nat) : List PS :=
+  let k := vs.length
+  let ext := (List.range k).zipWith (fun i (v : PS) => v.bits ++ (List.range k).map (fun j => i == j)) vs
+  let basis := ext.foldl rrefInsert []
+  (List.range k).map (fun i =>
+    PS.ofBits (swapPairs ((List.range len).map (fun p =>
+      basis.any (fun (pb : Nat × List Bool) => pb.1 == p && pb.2.getD (len + i) false)))))
+
+def qCert (vs : List PS) (x : PS) : Bool := qCheck (findDuals vs x.bits.length) vs x
+
+def nonMemberCert (vs : List PS) (x : PS) : Bool := sepCert vs x || zeroCert vs x || qCert vs x
 
 end MorphG
 end PauLie
